@@ -127,6 +127,9 @@ pub struct CaseWriter {
     pub n: u64,
     pub nfail: u64,
     pub stats: Stats,
+    /// bytes written to the case and result files so far, and the budget (HX_MAX_BYTES)
+    bytes: u64,
+    budget: u64,
 }
 
 impl CaseWriter {
@@ -145,10 +148,20 @@ impl CaseWriter {
             n: 0,
             nfail: 0,
             stats: Stats::default(),
+            bytes: 0,
+            budget: std::env::var("HX_MAX_BYTES").ok().and_then(|v| v.parse().ok()).unwrap_or(1_200_000_000),
         }
     }
+    /// Records one case for the comparison with the model.  The case and result files of one
+    /// run stay below the disk budget: cases beyond it are still executed and judged by the
+    /// property's oracle (the caller's `fail`), but not written for the model comparison.
     pub fn case(&mut self, case: &str, result: &str) {
         debug_assert!(!case.contains('\n') && !result.contains('\n'));
+        if self.bytes > self.budget {
+            self.stats.hit("cases_beyond_disk_budget_oracle_only");
+            return;
+        }
+        self.bytes += (case.len() + result.len() + 2) as u64;
         writeln!(self.cases, "{case}").unwrap();
         writeln!(self.results, "{result}").unwrap();
         self.n += 1;
